@@ -29,21 +29,21 @@ class TrioRunner(BaseRunner):
 
     def register_payload(self, payload: Callable[[], Awaitable]):
         assert self._trio_token is not None and self._submit_tasks is not None
+        # Hand over the payload without waiting for the trio thread: a blocking
+        # call would deadlock with a trio payload that blocks on the caller's thread,
+        # e.g. the asyncio thread unqueueing payloads while a trio payload executes
+        # an asyncio payload. The channel is unbounded, so the submission cannot block.
         try:
-            trio.from_thread.run(
-                self._submit_tasks.send, payload, trio_token=self._trio_token
-            )
-        except (trio.RunFinishedError, trio.Cancelled, trio.ClosedResourceError):
+            self._trio_token.run_sync_soon(self._submit_payload, payload)
+        except trio.RunFinishedError:
+            self._logger.warning(f"discarding payload {payload} during shutdown")
+
+    def _submit_payload(self, payload: Callable[[], Awaitable]):
+        try:
+            self._submit_tasks.send_nowait(payload)
+        except trio.ClosedResourceError:
             # the channel is closed while trio still finishes the cleanup of payloads
             self._logger.warning(f"discarding payload {payload} during shutdown")
-            return
-        except RuntimeError:
-            # trio raises a bare RuntimeError when we are already in the trio thread
-            # just submit the task directly
-            try:
-                self._submit_tasks.send_nowait(payload)
-            except trio.ClosedResourceError:
-                self._logger.warning(f"discarding payload {payload} during shutdown")
 
     def run_payload(self, payload: Callable[[], Coroutine]):
         assert self._trio_token is not None and self._submit_tasks is not None
